@@ -739,8 +739,9 @@ impl Hash for Value {
       Value::Index(x)=> x.borrow().hash(state),
       Value::MutableReference(x) => x.borrow().hash(state),
       Value::EmptyKind(k) => k.hash(state),
-      Value::Empty => Value::Empty.hash(state),
-      Value::IndexAll => Value::IndexAll.hash(state),
+      // unit-like variants: hash a fixed tag (hashing the variant itself recursed forever)
+      Value::Empty => 0u8.hash(state),
+      Value::IndexAll => 1u8.hash(state),
     }
   }
 }
